@@ -43,6 +43,10 @@ CHECKS = {
          'For every corpus program: every token gap x permitted insertions, line breaks where the statement allows them, comments at line ends, blank lines, CRLF; the reflection dump of the real AST (positions removed) must equal the original. For diagnostics: every single-token deletion/duplication/substitution and every prefix; each parse/compile error must point inside the source, quote that line verbatim, and render without failing.',
          'Trusted: the harness renderer knows the syntactic role of each gap (line breaks are only inserted after commas of list/map/set/argument lists, symbolic binary operators and pipes). Two known findings (positions at end of input).',
          'E5 enum over E1 corpus', '4 C20'),
+ 'C19': ('exploration', 'bounded-exhaustive enumeration of argument tuples over boundary pools for every discovered wrapper function, compared with the direct Go call; codec round trips and all short malformed inputs',
+         'Every function/method of strings, strconv, math, bytes, base64, filepath, regexp, json, string and byte_slice methods (discovered from the live modules; an unknown function is an engine error) is called with every argument tuple over its pools through the object API and through scripts and compared with the Go standard library; every codec round-trips every pool value and rejects exactly the malformed inputs (all strings <= 4 over a 6-symbol alphabet) that Go rejects; json codec and json module must agree.',
+         'Trusted: the table of Go closures in internal/c19/table.go. Four known findings (json codec vs module on byte_slice and nil; invalid UTF-8 through encoding/json).',
+         'E5 enum', '4 C19'),
  'C13': ('exploration', 'bounded-exhaustive enumeration of path strings x operations x layouts against a component-wise containment oracle',
          'Every path string over the 7-segment alphabet up to 5 (quick) / 6 (thorough) segments, absolute/relative, with/without trailing separator, is pushed through os.ResolvePath, through every localfs operation on a real temp tree with sentinels outside the base, and through every VirtualOS operation over 7 mount tables x 4 working directories with recording filesystems; the oracle is an independent component-wise prefix computation. Complete within the stated alphabet and length.',
          'Trusted: the oracle in internal/c13 (filepath.Clean + component-wise prefix); effects observed on a real tmpfs tree. Not covered: segments outside the alphabet, host-planted symlinks.',
